@@ -115,7 +115,7 @@ or special-cases) the run over `qeNum` followed by `φ : QE → ℝ` equals the 
 `φ`-image of the tree and of the point — values, `DomainError`s and `CoordinateMissing`s alike.
 
 ONE SIDE CONDITION IS NECESSARY.  `qeNum.powNat a n` does not compute astronomically large exact
-powers: when `(log2 |num a| + log2 (den a) + 2) * n > 2000000` it answers `⟨0, false⟩`.  That value
+powers: when `(log2 |num a| + log2 (den a) + 2) * n > 300000` it answers `⟨0, false⟩`.  That value
 is wrong (see `powNat_guard_breaks_exactness` below: the exact run returns `0`, even flagged
 `rep = true`, where the real value is about 2.1), so every theorem carries the hypothesis that the
 guard does not fire at the powers the run takes: `EvalFits p e` for evaluation, `DiffFits p e` for
@@ -285,7 +285,7 @@ example : numericPartials qeNum c01xPoint c01xExpr = .ok [("x", ⟨48 / 49, fals
 
 /-- **Without `EvalFits` the statement is false.**  x = 1 + 2⁻²⁰ (a double), `x ** 50000 * 2`:
 over the reals (and in Python, up to rounding) about 2.0976; the size guard of `qeNum.powNat` fires
-(42 bits × 50000 > 2000000) and answers `⟨0, false⟩`, the short-circuit of `multiply` sees "a zero
+(42 bits × 50000 > 300000) and answers `⟨0, false⟩`, the short-circuit of `multiply` sees "a zero
 factor" and answers a *fresh* zero — the exact run returns `0` with `rep = true`. -/
 theorem powNat_guard_breaks_exactness :
     let x : QE := ⟨1048577 / 1048576, true⟩
